@@ -158,7 +158,7 @@ def unmarshalScalar (t : CqlTy) (isNil : Bool) (d : Bytes) (ty : GoTy) : URes :=
           (match ipTo4 d with
            | some v4 => .ok (.ip v4)
            | none => .ok (.ip d))
-      | .str false => if d = [] then .ok (.str false []) else .unmodelled
+      | .str false => if d = [] then .ok (.str false []) else .ok (.str false (ipString d))
       | _ => .err)
   | _ => .unmodelled
 
@@ -308,7 +308,7 @@ def unmarshalBase (p : Nat) : CqlTy → GoTy → Option Bytes → URes
           | .err => .err | .crash => .crash | .unmodelled => .unmodelled)
      | .slice g =>
          (match unmarshalTupleSet p ts (List.replicate ts.length g) (dataBytes data) with
-          | .ok vs _ => .ok (.slice false vs)
+          | .ok vs _ => .ok (if g == .iface then .ifaces vs else .slice false vs)
           | .err => .err | .crash => .crash | .unmodelled => .unmodelled)
      | .array n g => if n ≠ ts.length then .err else
          (match unmarshalTupleSet p ts (List.replicate ts.length g) (dataBytes data) with
@@ -356,7 +356,12 @@ def unmarshalTupleSet (p : Nat) : List CqlTy → List GoTy → Bytes → LRes (L
             (match g with
              | .ptr g' => if g' == goTypeOf t then (if item.isSome then .ok (.ptr v) else .ok .nilptr) else .crash
              | .iface => .ok v
-             | g => if g == goTypeOf t then .ok v else .crash)
+             | g => if g == goTypeOf t then .ok v else
+                 -- reflect.Value.Set: assignable when the underlying types are identical and one side is unnamed
+                 (match g, v with
+                  | .arr16, .uuid b => .ok (.arr16 b)
+                  | .bytes true, .bytes false isNil b => .ok (.bytes true isNil b)
+                  | _, _ => .crash))
           (match slot with
            | .ok sv => (match unmarshalTupleSet p ts gs r with
               | .ok vs r' => .ok (sv :: vs) r'
